@@ -210,6 +210,7 @@ struct ProgInfo {
     globals: Vec<String>,
     containers: Vec<String>,
     compile_error: Option<String>,
+    compile_detail: J,
 }
 
 /// names of globals ("global decl") and of knots / stitches (two levels of named content)
@@ -301,8 +302,19 @@ fn load_program(p: &J) -> ProgInfo {
         }));
         match r {
             Ok(Ok(j)) => info.json = j,
-            Ok(Err(e)) => info.compile_error = Some(format!("err: {}", e)),
-            Err(_) => info.compile_error = Some(format!("panic: {}", take_panic())),
+            Ok(Err(e)) => {
+                info.compile_error = Some(format!("err: {}", e));
+                let (file, line) = match &e {
+                    bladeink_compiler::CompilerError::InvalidSource { file, line, .. }
+                    | bladeink_compiler::CompilerError::UnsupportedFeature { file, line, .. } => (file.clone(), *line),
+                };
+                info.compile_detail = json!({"kind":"err","file":file,"line":line,"message":e.message()});
+            }
+            Err(_) => {
+                let p = take_panic();
+                info.compile_error = Some(format!("panic: {}", p));
+                info.compile_detail = json!({"kind":"panic","detail":p});
+            }
         }
     }
     let (g, c) = scan_program(&info.json);
@@ -735,7 +747,7 @@ fn run_case(sc: &J, out: &mut impl Write) {
     let hdr: Vec<J> = progs
         .iter()
         .map(|p| {
-            json!({"compile_error": p.compile_error, "globals": p.globals, "containers": p.containers,
+            json!({"compile_error": p.compile_error, "compile_detail": p.compile_detail, "globals": p.globals, "containers": p.containers,
                    "json_len": p.json.len(), "json": if sc.get("echo_json").is_some() { J::String(p.json.clone()) } else { J::Null }})
         })
         .collect();
